@@ -156,3 +156,27 @@ Fixpoint mism_from (i : nat) (cs : list case) : list (nat * nat) :=
                 end
   end.
 Definition mismatches (cs : list case) := mism_from 0 cs.
+
+(* ---- stream T (agent N4): statement TEXTS with and without the rewrite, Corr/C04Text.v.  The
+   case files define their list with the type [xcase]; the cases above are embedded. *)
+From KV Require Corr.C03Text Corr.C04Text.
+Inductive xcase :=
+  | XBase (c : case)
+  | CaseX4 (t : Corr.C04Text.t4case).
+Definition XCase (i o : expr) (ps : list (bytes * bytes)) (obs : list obs) : xcase := XBase (Case i o ps obs).
+
+Definition xcheck_case (c : xcase) : nat :=
+  match c with
+  | XBase b => check_case b
+  | CaseX4 t => Corr.C04Text.check_t4 t
+  end.
+
+Fixpoint xmism_from (i : nat) (cs : list xcase) : list (nat * nat) :=
+  match cs with
+  | [] => []
+  | c :: cs' => match xcheck_case c with
+                | 0%nat => xmism_from (S i) cs'
+                | k => (i, k) :: xmism_from (S i) cs'
+                end
+  end.
+Definition xmismatches (cs : list xcase) : list (nat * nat) := xmism_from 0 cs.
